@@ -103,6 +103,8 @@ v("se-trial-extent-one-short-for-slices", S, "order.stop if isinstance(order, sl
 v("ok-se-trial-extent-generous", S, "order.stop if isinstance(order, slice) else np.max(order, initial=0) + 1", "order.stop + 1 if isinstance(order, slice) else np.max(order, initial=0) + 2", [])
 # --------------------------------------------------------------------------- block_diagonalization.py
 B = "block_diagonalization"
+v("bd-energy-differences-by-subtract-outer", B, "            energy_differences = eigs_A.reshape(-1, 1) - eigs_B\n", "            energy_differences = np.subtract.outer(eigs_A, eigs_B)\n", ["C01", "C16"],
+  "seed C01-r9: one-dimensional for the 0-d energies of a vanishing column block")
 v("bd-symbolic-denominators-resized", B, "                np.broadcast_to(\n                    1 / (array_eigs_a.reshape(-1, 1) - array_eigs_b), Y.shape\n                )", "                np.resize(1 / (array_eigs_a.reshape(-1, 1) - array_eigs_b), Y.shape)", ["C01", "C16"],
   "fixed defect F11: np.resize tiles the column of denominators when the column block has scalar zero energies")
 v("bd-symbols-sorted-on-the-way", B, "        return _sympy_to_BlockSeries(\n            operator,\n            symbols,\n", "        return _sympy_to_BlockSeries(\n            operator,\n            sorted(symbols, key=str),\n", ["C14", "C13"],
@@ -205,6 +207,12 @@ v("ok-bd-last-block-named", B, "        if H.shape[0] - 1 in fully_diagonalize:\
 v("bd-last-block-off-by-one", B, "        if H.shape[0] - 1 in fully_diagonalize:\n", "        last_block = H.shape[0]\n        if last_block in fully_diagonalize:\n", ["C20"])
 # --------------------------------------------------------------------------- linalg.py
 L = "linalg"
+v("la-is-diagonal-one-triangle", L, "        offdiagonal = A.reshape(-1)[:-1].reshape(len(A) - 1, len(A) + 1)[:, 1:]\n", "        offdiagonal = A[np.triu_indices_from(A, k=1)]\n", ["C20", "C14"],
+  "seed C20-r9: entries below the diagonal are not looked at")
+v("la-dot-shortcut-projector-squared", L, "    _rmatvec = _rmatmat = _apply_left\n", "    _rmatvec = _rmatmat = _apply_left\n\n    def dot(self, x):\n        if isinstance(x, ComplementProjector) and x._vecs is self._vecs and x._left_vecs is self._left_vecs:\n            return self\n        return super().dot(x)\n", ["C17"],
+  "seed C17-r9: P . P = P only for biorthonormal vectors")
+v("la-rmatvec-through-transpose", L, "        return v - self._left_vecs @ (self._vecs.conj().T @ v)\n", "        return self._transpose()._apply(v)\n", ["C17", "C14"],
+  "seed C14-r9: P^T instead of P^H")
 v("la-rmatvec-transpose", L, "return v - self._left_vecs @ (self._vecs.conj().T @ v)", "return v - self._left_vecs.conj() @ (self._vecs.T @ v)", ["C17", "C06"])
 v("la-base-state-uninitialised", L, "        super().__init__(\n            dtype=np.result_type(self._vecs.dtype, self._left_vecs.dtype),\n            shape=(vecs.shape[0], vecs.shape[0]),\n        )\n",
   "        self.dtype = np.result_type(self._vecs.dtype, self._left_vecs.dtype)\n        self.shape = (vecs.shape[0], vecs.shape[0])\n", ["C17", "C06"])
